@@ -33,7 +33,21 @@ def observe(pim, tick, probe_budget=24):
             probes.append([i, j, nz[:6]])
     else:
         shape = list(np.asarray(pim.transform(np.array([[0.0, 1.0]]), skew=False)).shape)
-    o["shape"] = shape
+    shapes = [] if shape is None else [shape]
+    for img in probes and imgs or []:
+        shapes.append(list(np.asarray(img).shape))
+    mid = np.array([[pim.birth_range[0] + ps / 2, pim.pers_range[0] + ps / 2]])
+    empty = np.zeros((0, 2))
+    try:
+        shapes.append(list(np.asarray(pim.transform(empty, skew=False)).shape))
+        shapes.append(list(np.asarray(pim.transform(mid, skew=False)).shape))
+        for img in pim.transform([empty, mid, empty], skew=False):
+            shapes.append(list(np.asarray(img).shape))
+        for img in pim.transform([empty], skew=True):
+            shapes.append(list(np.asarray(img).shape))
+    except Exception as e:
+        shapes.append([-1, -1])
+    o["shapes"] = [list(x) for x in sorted(set(map(tuple, shapes)))]
     o["probes"] = probes
     return o
 
